@@ -73,6 +73,7 @@ class NArr:
         self.isreal = real
         self.dtype = complex
         self.inf0 = False
+        self.rowvec = False  # 1-D array that algebraically is a 1 x n row (conjugated column of a matrix)
 
     # -- numpy surface -----------------------------------------------------------------------------
     @property
@@ -167,10 +168,16 @@ class NArr:
     def __mul__(self, o):
         self._chk()
         if is_scalar(o):
-            return NArr(self.val.scale(_sc(o)), self.shape, real=self.isreal and not isinstance(o, complex))
+            r = NArr(self.val.scale(_sc(o)), self.shape, real=self.isreal and not isinstance(o, complex))
+            r.rowvec = self.rowvec
+            return r
         if isinstance(o, NArr):
             o._chk()
             a, b = self, o
+            if a.rowvec and b.ndim == 2 and b.shape[1] == 1:
+                return NArr(b.val.mul(a.val), (b.shape[0], a.shape[0]))
+            if b.rowvec and a.ndim == 2 and a.shape[1] == 1:
+                return NArr(a.val.mul(b.val), (a.shape[0], b.shape[0]))
             # diag(col) * matrix  (broadcast of an (n,1) column or a vector against (n,m) / (n,))
             if a.ndim == 2 and a.shape[1] == 1 and b.shape[0] == a.shape[0]:
                 return NArr(diag_of(a.val).mul(b.val), b.shape)
@@ -209,6 +216,17 @@ class NArr:
             raise A.OutsideSubset("matrix product with a bare conj/transpose operand")
         if a.grid or b.grid:
             raise A.OutsideSubset("matmul on FFT-box array")
+        if a.ndim == 1 and b.ndim == 1:
+            if a.shape != b.shape:
+                raise A.OutsideSubset("vdot shape mismatch")
+            if not a.isreal:
+                raise A.OutsideSubset("a @ b for a complex vector a is the bilinear (unconjugated) product")
+            return NArr(a.val.dagger().mul(b.val), ())
+        # multi-term operands are abstracted into definition atoms so that X^H O X folds into one word (unfolded lazily)
+        if len(a.val.t) > 1:
+            a = NArr(nc.define(a.val, "R"), a.shape)
+        if len(b.val.t) > 1:
+            b = NArr(nc.define(b.val, "R"), b.shape)
         if a.ndim == 2 and b.ndim == 2:
             if a.shape[1] != b.shape[0]:
                 raise A.OutsideSubset(f"matmul shape mismatch {a.shape} @ {b.shape}")
@@ -219,12 +237,29 @@ class NArr:
 
     # -- indexing ------------------------------------------------------------------------------------
     def __getitem__(self, key):
-        self._chk() if not self.grid else None
         C = nc.ctx()
+        if isinstance(key, tuple) and len(key) >= 2 and isinstance(key[1], Poly):
+            import operator
+
+            key = (key[0], operator.index(key[1])) + tuple(key[2:])
         if isinstance(key, Idx):  # rows of the cut-off sphere
             S = scatter_atom(key.ik)
             shape = (dim_active(key.ik),) + self.shape[1:]
             return NArr(NC.of(S.dagger()).mul(self.val), shape)
+        if isinstance(key, tuple) and len(key) in (2, 3) and key[0] == slice(None) and isinstance(key[1], (int, np.integer)) \
+                and self.ndim == 2 and (len(key) == 2 or key[2] is None):
+            # column j of a matrix: M e_j (as a vector, or as an (n,1) column with a trailing None)
+            e = unit_col(self.shape[1], int(key[1]))
+            if self.pending == "conj":
+                if len(key) == 3:
+                    raise A.OutsideSubset("column of a conjugated matrix as a column")
+                r = NArr(NC.of(e.dagger()).mul(self.val.dagger()), (self.shape[0],))
+                r.rowvec = True
+                return r
+            if self.pending:
+                raise A.OutsideSubset("column of a transposed matrix")
+            v = self.val.mul(NC.of(e))
+            return NArr(v, (self.shape[0], 1) if len(key) == 3 else (self.shape[0],))
         if isinstance(key, tuple) and len(key) == 2:
             r, c = key
             if isinstance(r, slice) and r == slice(None) and c is None and self.ndim == 1:
@@ -277,6 +312,26 @@ def scatter_atom(ik):
         C.rule((P, S), NC.of(S))
         C.rule((Sd, P), NC.of(Sd))
     return S
+
+
+def unit_col(n, j):
+    C = nc.ctx()
+    e = C.atom(f"e{j}[{dim_name(n)}]", n, 1, real=True)
+    if not getattr(C, "_unit_rules", None):
+        C._unit_rules = set()
+    return e
+
+
+def declare_units(n, count):
+    """Unit columns e_0..e_{count-1} of an n-dimensional index space: e_i^H e_j = delta_ij."""
+    C = nc.ctx()
+    es = [unit_col(n, j) for j in range(count)]
+    for i, a in enumerate(es):
+        for j, b in enumerate(es):
+            lhs = (a.dagger(), b)
+            if not any(l == lhs for l, _ in C.rules):
+                C.rule(lhs, NC({(): A.ONE}, 1, 1) if i == j else NC({}, 1, 1))
+    return es
 
 
 def zero_mode_atoms(n):
@@ -341,6 +396,31 @@ def diag_inverse(d):
 
 
 SINGULAR0 = set()
+
+
+class Trace:
+    """trace of an NC polynomial (cyclic): kept symbolic; compared through cyclic normal forms."""
+
+    def __init__(self, val):
+        self.val = val
+
+    def __mul__(self, o):
+        return Trace(self.val.scale(_sc(o)))
+
+    __rmul__ = __mul__
+
+    def __add__(self, o):
+        if isinstance(o, (int, float)) and o == 0:
+            return self
+        return Trace(self.val + o.val)
+
+    __radd__ = __add__
+
+    def __neg__(self):
+        return Trace(-self.val)
+
+    def __sub__(self, o):
+        return Trace(self.val - o.val)
 
 
 class NStack:
@@ -448,6 +528,22 @@ class Backend:
 
     def stack(self, xs, axis=0):
         return NStack(list(xs))
+
+    def zeros_like(self, x, dtype=None, **kw):
+        return NArr(NC.zero(x.val.rows, x.val.cols), x.shape)
+
+    def astype(self, x, dtype, **kw):
+        return x
+
+    def trace(self, x):
+        return Trace(x.val)
+
+    def real(self, x):
+        if isinstance(x, Trace):
+            return x
+        if isinstance(x, NArr) and x.isreal:
+            return x
+        raise A.OutsideSubset("real part of a complex array")
 
     def asarray(self, x, dtype=None, **kw):
         return x
